@@ -55,6 +55,7 @@ func vSpawnCount() int
 func vSendCount() int
 func vLocksHeldNow() int
 func vDistinctRandom()
+func vSharedMapRaces() int
 func vObserveInt(name string, x int)
 func vObserveBool(name string, x bool)
 func vObserveBytes(name string, b []byte)
@@ -162,6 +163,7 @@ func vSpawnCount() int  { return 0 }
 func vSendCount() int   { return 0 }
 func vLocksHeldNow() int { return 0 }
 func vDistinctRandom()    {}
+func vSharedMapRaces() int { return 0 }
 func vObsKey(name string) string {
 	k := vObsCounts[name]
 	vObsCounts[name] = k + 1
